@@ -7,7 +7,7 @@ RULE = ('(i) complete levels: all ids of level b (b<=6 quick / 8 thorough) group
         'for every cell c of level a, cell_to_children(c, b) must be duplicate-free, of the model length, equal to that group, '
         'ascending and a contiguous run of the sorted level (res(c)>=1); (ii) deep random triples (c, a, b), r in -1..29, '
         'b<=min(r+3,29): same post-conditions plus range probing with ids built around the run; composition of parents; '
-        'defaults; error paths. distinct = distinct (c, a, b); non-trivial = b>res(c) or a<res(c)')
+        'defaults; error paths; uncompact / compact calls on coarse cells (results scrambled) interleaved as hostile history. distinct = distinct (c, a, b); non-trivial = b>res(c) or a<res(c)')
 ASSUMPTIONS = ['arities 12/5/4 are the only model constants', 'b=30 is outside this property (see C05 known finding)']
 
 
@@ -100,7 +100,23 @@ def run_shard(spec, ctx):
     import a5.core.serialization as ser
     from a5.core.utils import A5Cell
     from a5.core.origin import origins
+    low = [0] + a5.cell_to_children(0, 0) + a5.cell_to_children(0, 1)
     for n in range(spec['n']):
+        if n % 5 == 0:
+            # other API calls on coarse cells in between (the hierarchy must not depend on what was called before)
+            try:
+                k = ctx.rnd.randint(1, 3)
+                cells = [ctx.rnd.choice(low[:13]) for _ in range(k)] if ctx.rnd.random() < 0.5 else [ctx.rnd.choice(low) for _ in range(k)]
+                t = ctx.rnd.randint(max(a5.get_resolution(x) for x in cells), 3)
+                out = a5.uncompact(cells, t)
+                if ctx.rnd.random() < 0.5:
+                    a5.compact(out)
+                if ctx.rnd.random() < 0.3 and out:
+                    out.reverse()
+                    out.pop()
+                ctx.count('interleaved_compaction_calls')
+            except Exception as e:
+                ctx.note('interleaved compaction call raised %r' % (e,))
         rc = ctx.rnd.choice([-1, 0, 1, 2, 3]) if ctx.rnd.random() < 0.25 else ctx.rnd.randint(-1, 29)
         c = 0 if rc == -1 else gen.random_cell(ctx.rnd, a5, rc)
         b = ctx.rnd.randint(rc, min(rc + 3, 29))
